@@ -300,13 +300,15 @@ def run(ctx):
                 first = np.asarray(jd.marginal_ln_likelihood(box, pb.lib, in_memory=bool(rng.random() < 0.5)))
                 box[0] = other.data
                 second = np.asarray(jd.marginal_ln_likelihood(box, pb.lib, in_memory=bool(rng.random() < 0.5)))
-                want2 = np.asarray(TheJoker(pb.prior).marginal_ln_likelihood(other.data, pb.lib, in_memory=True))
+                # (a list of sources is merged about its earliest epoch, so the references are lists as well)
+                want1 = np.asarray(TheJoker(pb.prior).marginal_ln_likelihood([pb.data], pb.lib, in_memory=True))
+                want2 = np.asarray(TheJoker(pb.prior).marginal_ln_likelihood([other.data], pb.lib, in_memory=True))
                 ctx.evaluations += 1
                 ctx.distinct.add(repr(("data-container-mutated-in-place",)))
-                if bits(first) != bits(base) or bits(second) != bits(want2):
+                if bits(first) != bits(want1) or bits(second) != bits(want2):
                     ctx.violation("stale-data-after-in-place-change", "after replacing the data set inside the list passed to the same "
                                   "TheJoker the likelihoods are not those of the new data (%d of %d equal the OLD data's values)"
-                                  % (int(np.sum(second == base)), N), desc)
+                                  % (int(np.sum(second == want1)), N), desc)
             # rejection: equal seeds => equal accepted tag set on every path
             seed = int(rng.integers(0, 2 ** 31))
             sets = {}
